@@ -513,10 +513,13 @@ def _interval(e, cx, refine, depth=0, at=None):
             return (a[0] // b[1], a[1] // b[0])
         if op == "Rem" and b[0] > 0 and a[0] >= 0:
             return (0, min(a[1], b[1] - 1))
-        if op == "Shl" and b[0] == b[1] and 0 <= b[0] < 128 and a[0] >= 0:
-            return (a[0] << b[0], a[1] << b[0])
-        if op == "Shr" and b[0] == b[1] and 0 <= b[0] < 128 and a[0] >= 0:
-            return (a[0] >> b[0], a[1] >> b[0])
+        if op == "Shl" and 0 <= b[0] <= b[1] < 128 and a[0] >= 0:
+            r_ = (a[0] << b[0], a[1] << b[1])
+            if tr is not None and r_[1] > tr[1]:
+                return tr              # bits shifted out are dropped silently: only the type's range is known
+            return r_
+        if op == "Shr" and 0 <= b[0] <= b[1] < 128 and a[0] >= 0:
+            return (a[0] >> b[1], a[1] >> b[0])
         if op == "BitAnd" and a[0] >= 0 and b[0] >= 0:
             return (0, min(a[1], b[1]))
         if op == "BitOr" and a[0] >= 0 and b[0] >= 0:
@@ -698,6 +701,26 @@ class Refinements:
             if f.get("kind") == "if":
                 c = hir.simp(f["expr"])
                 gp = cx.last.get(id(c), cx.order.get(id(c), 0))
+                if c.get("k") == "bin" and c.get("op") in ("And", "Or") and "callee" not in c and (c["op"] == "Or") == bool(f["val"]):
+                    # `l != 3 && l != 6` found false / `l == 3 || l == 6` found true: the place is one of the constants (their hull)
+                    want_op = "Eq" if c["op"] == "Or" else "Ne"
+                    parts = hir.split_or(c) if c["op"] == "Or" else hir.split_and(c)
+                    place, vals = None, []
+                    for q in parts:
+                        q = hir.simp(q)
+                        if not (q.get("k") == "bin" and q.get("op") == want_op and "callee" not in q):
+                            place = None
+                            break
+                        lw = _peel_widening(q["l"])
+                        lp_ = hir.place_str(lw) if lw.get("k") in ("local", "field", "un") else None
+                        ri_ = interval(q["r"], cx, {}, at=c)
+                        if lp_ is None or ri_ is None or ri_[0] != ri_[1] or (place is not None and lp_ != place):
+                            place = None
+                            break
+                        place = lp_
+                        vals.append(ri_[0])
+                    if place is not None and vals:
+                        self._add(place, min(vals), max(vals), gp, fi)
                 if c.get("k") == "bin" and c.get("op") in ("Lt", "Le", "Gt", "Ge", "Eq", "Ne") and "callee" not in c:
                     op = c["op"]
                     if not f["val"]:
